@@ -205,6 +205,8 @@ func PropOfFamily(f string) string {
 		return "C15"
 	case len(f) >= 4 && f[:4] == "ids/":
 		return "C16"
+	case len(f) >= 7 && f[:7] == "import/":
+		return "C12"
 	}
 	return ""
 }
